@@ -285,6 +285,8 @@ type workerOut struct {
 	inflight int
 	done     bool
 	fatal    string
+	races    int
+	raceLog  string
 }
 
 func readWorkerOut(path string) workerOut {
@@ -385,6 +387,18 @@ func ParentMain(p Prop, tier string, extraArgs []string) int {
 		}
 		lf.Close()
 		wo := readWorkerOut(out)
+		if lb, err := os.ReadFile(logp); err == nil {
+			if n := strings.Count(string(lb), "WARNING: DATA RACE"); n > 0 {
+				wo.races = n
+				keep := filepath.Join(root, "replays", fmt.Sprintf("%s-%s-seed%d-worker%s-race.log", p.ID(), tier, seed, tag))
+				_ = os.MkdirAll(filepath.Dir(keep), 0o755)
+				if len(lb) > 400000 {
+					lb = lb[:400000]
+				}
+				_ = os.WriteFile(keep, lb, 0o644)
+				wo.raceLog = keep
+			}
+		}
 		if !wo.done && wo.fatal == "" {
 			tail := tailFile(logp, 6000)
 			keep := filepath.Join(root, "replays", fmt.Sprintf("%s-worker%s-crash.log", p.ID(), tag))
@@ -410,6 +424,13 @@ func ParentMain(p Prop, tier string, extraArgs []string) int {
 			mu.Lock()
 			defer mu.Unlock()
 			all = append(all, wo.results...)
+			if wo.races > 0 {
+				r := CaseResult{Case: fmt.Sprintf("worker-%d", s), Idx: 1<<30 + s, Hash: fmt.Sprintf("race-%d", s)}
+				r.Violate("data-race", fmt.Sprintf("the Go race detector printed %d report(s) in worker %d; full log: %s\n%s", wo.races, s, wo.raceLog, firstRace(wo.raceLog)), "", map[string]any{"race_log": wo.raceLog})
+				all = append(all, r)
+				planned1 := 1
+				_ = planned1
+			}
 			if wo.fatal != "" && wo.fatal != "watchdog" {
 				fatals = append(fatals, wo.fatal)
 			}
@@ -488,6 +509,26 @@ func ParentMain(p Prop, tier string, extraArgs []string) int {
 		}
 	}
 	return report(p, tier, seed, all, inconclusive, start, n, witnessed)
+}
+
+func firstRace(path string) string {
+	b, err := os.ReadFile(path)
+	if err != nil {
+		return ""
+	}
+	s := string(b)
+	i := strings.Index(s, "WARNING: DATA RACE")
+	if i < 0 {
+		return ""
+	}
+	s = s[i:]
+	if j := strings.Index(s, "=================="); j > 0 {
+		s = s[:j]
+	}
+	if len(s) > 3000 {
+		s = s[:3000]
+	}
+	return s
 }
 
 func tailFile(path string, n int) string {
@@ -634,8 +675,14 @@ func report(p Prop, tier string, seed int64, all []CaseResult, inconclusive []st
 	if violations > 0 {
 		return 1
 	}
-	if len(all) < planned {
-		fmt.Printf("INCONCLUSIVE: only %d of %d planned cases completed\n", len(all), planned)
+	completed := 0
+	for _, r := range all {
+		if r.Idx < 1<<30 {
+			completed++
+		}
+	}
+	if completed < planned {
+		fmt.Printf("INCONCLUSIVE: only %d of %d planned cases completed\n", completed, planned)
 		return 2
 	}
 	if len(floorMiss) > 0 {
